@@ -24,6 +24,19 @@ fn run_w<const B: usize, const L: usize, const NB: usize>(scn: &Obj) -> Value {
             ev.rec("be_vec", || Raw(a.to_be_bytes_vec()));
             ev.rec("le_tvec", || Raw(a.to_le_bytes_trimmed_vec()));
             ev.rec("be_tvec", || Raw(a.to_be_bytes_trimmed_vec()));
+            // the array forms with a size parameter that is NOT Self::BYTES are documented to panic (sizes 3, 7, 31 and 600 are
+            // the byte size of no compiled width)
+            ev.rec("ws_to_le3", || Raw(a.to_le_bytes::<3>().to_vec()));
+            ev.rec("ws_to_be3", || Raw(a.to_be_bytes::<3>().to_vec()));
+            ev.rec("ws_to_le7", || Raw(a.to_le_bytes::<7>().to_vec()));
+            ev.rec("ws_to_be7", || Raw(a.to_be_bytes::<7>().to_vec()));
+            ev.rec("ws_to_le31", || Raw(a.to_le_bytes::<31>().to_vec()));
+            ev.rec("ws_to_be31", || Raw(a.to_be_bytes::<31>().to_vec()));
+            ev.rec("ws_to_be600", || Raw(a.to_be_bytes::<600>().to_vec()));
+            ev.rec("ws_from_le3", || Uint::<B, L>::from_le_bytes::<3>([0u8; 3]));
+            ev.rec("ws_from_be3", || Uint::<B, L>::from_be_bytes::<3>([0u8; 3]));
+            ev.rec("ws_from_le31", || Uint::<B, L>::from_le_bytes::<31>([0u8; 31]));
+            ev.rec("ws_from_be7", || Uint::<B, L>::from_be_bytes::<7>([0u8; 7]));
             // decoding the encodings returns the original value
             ev.rec("rt_le", || Uint::<B, L>::from_le_bytes::<NB>(a.to_le_bytes::<NB>()));
             ev.rec("rt_be", || Uint::<B, L>::from_be_bytes::<NB>(a.to_be_bytes::<NB>()));
